@@ -2,6 +2,7 @@
 //   c20 --seed N --cases M --out stats.json --faildir DIR       |   c20 --replay FILE
 #include <rapidcheck.h>
 #include "specs.hpp"
+#include "cmirror.hpp"
 #include <masa.h>
 #include <sys/stat.h>
 using namespace MASA;
@@ -41,7 +42,9 @@ static const Ev *find_ev(const Spec &s, const std::string &l) { for (auto &e : s
 
 template <class Scalar> static std::vector<Res> run_t(const Pair &P, const C20Case &c, double K) {
   const Spec &R = *find_spec(P.rich), &S = *find_spec(P.simple); std::vector<Res> out; const long double eps = std::numeric_limits<Scalar>::epsilon();
-  { Quiet q; masa_verif_reset(); masa_init<Scalar>("rich", P.rich); masa_init<Scalar>("simple", P.simple);
+  { Quiet q; masa_verif_reset();
+    if (sizeof(Scalar) > 8) { masa_init<double>("decoy-simple", P.simple); masa_init<double>("decoy-rich", P.rich); } else { masa_init<long double>("decoy-simple", P.simple); masa_init<long double>("decoy-rich", P.rich); }   // see numcase.cpp
+    masa_init<Scalar>("rich", P.rich); masa_init<Scalar>("simple", P.simple);
     masa_select_mms<Scalar>("rich"); for (auto &kv : c.rich.params) masa_set_param<Scalar>(kv.first, (Scalar)kv.second);
     masa_select_mms<Scalar>("simple"); for (auto &kv : c.simple.params) masa_set_param<Scalar>(kv.first, (Scalar)kv.second); }
   PM pr, ps; for (auto &kv : c.rich.params) pr[kv.first] = Q((long double)(Scalar)kv.second); for (auto &kv : c.simple.params) ps[kv.first] = Q((long double)(Scalar)kv.second);
@@ -56,7 +59,10 @@ template <class Scalar> static std::vector<Res> run_t(const Pair &P, const C20Ca
     { Quiet q; masa_select_mms<Scalar>("rich"); r.a = sizeof(Scalar) > 8 ? er->ld(al) : (long double)er->d(ad); masa_select_mms<Scalar>("simple"); r.b = sizeof(Scalar) > 8 ? es->ld(bl) : (long double)es->d(bd); }
     Q ma = er->ref(pr, aq), mb = es->ref(ps, bq);           // the AD oracle supplies the SCALE only
     __float128 scale = ma.m + mb.m; __float128 diff = fabsq((__float128)r.a - (__float128)r.b);
-    r.err = diff == 0 ? 0 : (scale > 0 ? (double)(diff / scale / (__float128)eps) : 1e300); r.bad = !(r.err <= K) || !std::isfinite(r.a) || !std::isfinite(r.b); if (phase) r.label = "after set_param: " + r.label; out.push_back(r); } }
+    r.err = diff == 0 ? 0 : (scale > 0 ? (double)(diff / scale / (__float128)eps) : 1e300); r.bad = !(r.err <= K) || !std::isfinite(r.a) || !std::isfinite(r.b); if (phase) r.label = "after set_param: " + r.label; out.push_back(r); } 
+  // the same sources through the C entry points of the double interface, bit for bit, on both handles
+  if (sizeof(Scalar) == 8) for (int side = 0; side < 2; side++) { { Quiet q; masa_select_mms<Scalar>(side ? "simple" : "rich"); }
+    for (auto &m : c_mirror(side ? bd : ad, side ? S.nargs : R.nargs, 0, nullptr, &mirror_compared())) { Res r; r.label = std::string(phase ? "after set_param: " : "") + "C-interface: " + m.cname + " on " + (side ? P.simple : P.rich) + " differs from " + m.cxx_id; r.a = m.c; r.b = m.cxx; r.err = 1e300; r.bad = true; out.push_back(r); } } }
   return out;
 }
 static std::vector<Res> run(const Pair &P, const C20Case &c, double K) { return c.rich.prec ? run_t<long double>(P, c, K) : run_t<double>(P, c, K); }
